@@ -2,7 +2,7 @@
 identity only (never hashed, never ==-compared); the receiver parameter name comes from the signature; unwrapping."""
 import ast
 
-from ..astq import is_name, kwarg, parse_fixture, returns_of
+from ..astq import conds, facts_of, is_name, kwarg, literals, parse_fixture, returns_of
 from ..core import AnalysisError, norm, walk_local, dotted
 
 EQ_OPS = (ast.Eq, ast.NotEq, ast.In, ast.NotIn)
@@ -266,23 +266,27 @@ def run(repo, chk):
                "the receiver element is named and captured under the signature's parameter name (the receiver is reported in the event)")
     # R13.3
     mt = [n for n in walk_local(rs.node) if isinstance(n, ast.If) and norm(n.test) == "isinstance(fn, types.MethodType)"]
-    ok = len(mt) == 1 and "real_fn = _dig(fn.__func__)" in " ".join(norm(s) for s in mt[0].body) and "el = el.clone(name=real_fn)" in " ".join(norm(s) for s in mt[0].body)
+    frs = facts_of(rs)
+    is_m = "isinstance(fn, types.MethodType)"
+    ok = len(mt) == 1 and (frs.has("el = el.clone(name=real_fn)", when=[is_m]) and frs.has("real_fn = _dig(fn.__func__)", when=[is_m]) or frs.has("el = el.clone(name=_dig(fn.__func__))", when=[is_m]))
     chk.ob("R13.3", "selector._resolve:method-resolved-to-function", ok, rs.where, "a bound method is resolved to its underlying (unwrapped) function")
     recv_in_else = mt and any(is_receiver_expr(n, set()) for s in mt[0].orelse for n in ast.walk(s))
     recv_in_body = mt and any(is_receiver_expr(n, set()) for s in mt[0].body for n in ast.walk(s))
     chk.ob("R13.3", "selector._resolve:constraint-only-for-bound-methods", bool(mt) and recv_in_body and not recv_in_else, rs.where,
            "only selectors written through an object get the receiver constraint (Cls.meth observes every instance)")
-    ok = mt and "unwrapped = _dig(fn)" in " ".join(norm(s) for s in mt[0].orelse) and "el = el.clone(name=unwrapped)" in " ".join(norm(s) for s in mt[0].orelse)
+    ok = mt and (frs.has("el = el.clone(name=unwrapped)", when=[f"not {is_m}"]) and frs.has("unwrapped = _dig(fn)", when=[f"not {is_m}"]) or frs.has("el = el.clone(name=_dig(fn))", when=[f"not {is_m}"]))
     chk.ob("R13.3", "selector._resolve:plain-callable-unwrapped", bool(ok), rs.where, "functions reached through decorators are unwrapped as well")
     dg = repo.func("selector._dig")
     loops = [n for n in walk_local(dg.node) if isinstance(n, ast.While)]
-    ok = len(loops) == 1 and norm(loops[0].test) == "hasattr(fn, '__wrapped__') and (not is_tooled(fn))" and norm(loops[0].body[0]) == "fn = fn.__wrapped__"
+    fdg = facts_of(dg)
+    steps = fdg.find("fn = fn.__wrapped__")
+    ok = len(loops) == 1 and len(steps) == 1 and sorted(literals(loops[0].test, True)) == sorted(["hasattr(fn, '__wrapped__')", "not is_tooled(fn)"]) and fdg.loops(steps[0]) and sorted(conds(steps[0], dg.node)) == sorted(literals(loops[0].test, True))
     chk.ob("R13.3", "selector._dig:follows-__wrapped__", ok, dg.where, "follows __wrapped__ until a tooled function (or the innermost one)")
-    ok = any(isinstance(n, ast.If) and norm(n.test) == "isinstance(fn, property)" and "_dig(fn.fget)" in norm(n.body[0]) for n in walk_local(dg.node))
+    ok = fdg.has("return _dig(fn.fget)", exactly=["isinstance(fn, property)"]) or fdg.has("fn = _dig(fn.fget)", exactly=["isinstance(fn, property)"])
     chk.ob("R13.3", "selector._dig:property-fget", ok, dg.where, "a property is resolved to its getter")
     dr = repo.func("selector.dict_resolver.resolve")
-    t = norm(dr.node)
+    fdr = facts_of(dr)
     loops = [n for n in ast.walk(dr.node) if isinstance(n, ast.For) and norm(n.iter) == "parts"]
-    ok = "start, *parts = x.split('.')" in t and "curr = env[start]" in t and len(loops) == 1 and \
+    ok = fdr.has("start, *parts = x.split('.')") and fdr.has("curr = env[start]", when=["start in env"]) and len(loops) == 1 and \
         any(isinstance(a, ast.Assign) and norm(a) == f"curr = getattr(curr, {norm(loops[0].target)})" for a in ast.walk(loops[0]))
     chk.ob("R13.3", "selector.dict_resolver.resolve:dotted-path", ok, dr.where, "dotted names are resolved attribute by attribute from the environment")
